@@ -27,6 +27,12 @@ def dispatch(prop, tier, seed):
     if prop == 'C19':
         from . import drift_cli
         return drift_cli.run_check(tier, seed)
+    if prop == 'C16':
+        from . import segment_files
+        return segment_files.check_c16(tier, seed)
+    if prop == 'C17':
+        from . import abi_layout
+        return abi_layout.run_check(tier, seed)
     raise SystemExit('no check for ' + prop)
 
 
